@@ -263,8 +263,12 @@ func c02Encode(fam string, s gen.Signed, aux int) (entry string, out []byte, dif
 		if de != nil || n != len(out) {
 			return "lease_set2.NewLeaseSet2", out, []string{fmt.Sprintf("reference decoder: %v (extent %d of %d)", de, n, len(out))}, nil
 		}
+		// NewLeaseSet2 takes a Mapping VALUE: the field values are its set of pairs; whether the constructor
+		// keeps the caller's order or emits them sorted is not a difference in field values (C11 decides the
+		// canonical order of what the mapping encoders produce)
 		exp := ls
 		exp.Options = ls.Options.Sorted()
+		d.Options = d.Options.Sorted()
 		return "lease_set2.NewLeaseSet2", out, adapt.Diff(adapt.ModelLeaseSet2(exp, false), adapt.ModelLeaseSet2(d, false)), nil
 	case "EncryptedLeaseSet":
 		el := s.Value.(refmodel.EncryptedLeaseSet)
